@@ -154,7 +154,41 @@ RejectPool(kind) ==
           <<Lit("n1 =")>>, <<Lit("'abc")>>, <<Lit("n1 + ")>>, <<Lit("n1 = = 2")>>, <<Nm(1, "n1"), Lit(" n2")>> >>
 NAccept(kind) == Len(AcceptPool(kind))
 Expr(s) == IF s.e <= NAccept(s.kind) THEN AcceptPool(s.kind)[s.e] ELSE RejectPool(s.kind)[s.e - NAccept(s.kind)]
-SyntaxOK(s) == s.e <= NAccept(s.kind)
+\* ---- invalid arguments DERIVED from the valid ones: truncation (every proper prefix), deletion of a quote / bracket /
+\* parenthesis, insertion of one at every position.  Only results that are CLEARLY invalid are kept (decided on
+\* characters, no grammar needed): a literal left open, unbalanced ( ) or [ ] outside literals, or the text ends - after
+\* blanks - in an operator (= > < ! + , or and), in the colon of a prefix, or in a slash that is not the whole expression.
+NoMut == [op |-> "none", at |-> 0, ch |-> ""]
+Mutate(t, m) == CASE m.op = "trunc" -> SubSeq(t, 1, m.at)
+                  [] m.op = "del" -> (IF m.at = 1 THEN "" ELSE SubSeq(t, 1, m.at - 1)) \o (IF m.at = Len(t) THEN "" ELSE SubSeq(t, m.at + 1, Len(t)))
+                  [] m.op = "ins" -> (IF m.at = 0 THEN "" ELSE SubSeq(t, 1, m.at)) \o m.ch \o (IF m.at = Len(t) THEN "" ELSE SubSeq(t, m.at + 1, Len(t)))
+                  [] OTHER -> t
+St0 == [q |-> FALSE, po |-> 0, pc |-> 0, bo |-> 0, bc |-> 0, neg |-> FALSE]
+RECURSIVE Scan(_, _, _)
+Scan(t, i, st) ==
+  IF i > Len(t) THEN st
+  ELSE LET c == SubSeq(t, i, i) IN
+       Scan(t, i + 1, IF c = "'" THEN [st EXCEPT !.q = ~st.q]
+                      ELSE IF st.q THEN st
+                      ELSE IF c = "(" THEN [st EXCEPT !.po = st.po + 1]
+                      ELSE IF c = ")" THEN [st EXCEPT !.pc = st.pc + 1, !.neg = st.neg \/ st.pc + 1 > st.po]
+                      ELSE IF c = "[" THEN [st EXCEPT !.bo = st.bo + 1]
+                      ELSE IF c = "]" THEN [st EXCEPT !.bc = st.bc + 1, !.neg = st.neg \/ st.bc + 1 > st.bo]
+                      ELSE st)
+RECURSIVE LastNonSpace(_, _)
+LastNonSpace(t, n) == IF n = 0 THEN 0 ELSE IF SubSeq(t, n, n) = " " THEN LastNonSpace(t, n - 1) ELSE n
+EndsBad(t) == LET n == LastNonSpace(t, Len(t)) IN
+              n >= 1 /\ LET c == SubSeq(t, n, n) IN
+                        \/ c \in {"=", ">", "<", "!", ":", "+", ","} \/ (c = "/" /\ n > 1)
+                        \/ (n >= 4 /\ SubSeq(t, n - 2, n) = " or") \/ (n >= 5 /\ SubSeq(t, n - 3, n) = " and")
+ClearlyInvalid(t) == LET st == Scan(t, 1, St0) IN
+                     Len(t) >= 1 /\ (st.q \/ st.po # st.pc \/ st.bo # st.bc \/ st.neg \/ EndsBad(t))
+MarkChars == {"'", "(", ")", "[", "]"}
+Muts(t) == {m \in {[op |-> "trunc", at |-> i, ch |-> ""] : i \in 1..(Len(t) - 1)}
+                  \cup {[op |-> "del", at |-> i, ch |-> ""] : i \in {j \in 1..Len(t) : SubSeq(t, j, j) \in MarkChars}}
+                  \cup {[op |-> "ins", at |-> x[1], ch |-> x[2]] : x \in (0..Len(t)) \X MarkChars}
+            : ClearlyInvalid(Mutate(t, m))}
+SyntaxOK(s) == s.e <= NAccept(s.kind) /\ s.mut.op = "none"
 Slots(x) == {x[i].slot : i \in {j \in 1..Len(x) : x[j].t \in {"n", "ln"}}}      \* slots that shape the text
 PSlots(x) == {x[i].slot : i \in {j \in 1..Len(x) : x[j].t = "n"}}              \* slots used as a PREFIX
 RECURSIVE Text(_, _)
@@ -177,7 +211,7 @@ Verdict(I) == IF \E i \in 1..Len(I.stmts) : Bad(I.cfg, I.stmts[i]) THEN "error" 
 BadStmts(I) == {i \in 1..Len(I.stmts) : Bad(I.cfg, I.stmts[i])}
 
 \* ------------------------------------------------------------- instance space
-Stmt(kind, place, site, e, pf) == [kind |-> kind, place |-> place, T |-> site[1], U |-> site[2], V |-> site[3], e |-> e, pf |-> pf, on |-> 0, hp |-> ""]
+Stmt(kind, place, site, e, pf) == [kind |-> kind, place |-> place, T |-> site[1], U |-> site[2], V |-> site[3], e |-> e, pf |-> pf, on |-> 0, hp |-> "", mut |-> NoMut]
 PfChoices(c, m, x) == LET sl == Slots(x) IN
                       {pf \in [1..2 -> Choices(c, m)] : \A i \in 1..2 : i \notin sl => pf[i] = ""}
 StmtsOf(c, kind, place) ==
@@ -203,6 +237,23 @@ SampleOne(c, kind, place, good) ==
               : site \in {RandomElement(Sites(c, place))}}
 SampleStmts(c, kind, place, n) == UNION {SampleOne(c, kind, place, FALSE) : i \in 1..n}
 RandStmt(c, good) == UNION {UNION {SampleOne(c, k, p, good) : p \in {RandomElement({q \in Places(k) : Sites(c, q) # {}})}} : k \in {RandomElement(Kinds)}}
+\* ---- mutated statements: a valid statement whose argument is made clearly invalid by one truncation / deletion / insertion
+SText(s) == Mutate(Text(Expr(s), s.pf), s.mut)
+MutOne(c) == UNION {UNION {IF MS = {} THEN {} ELSE {[cfg |-> c, stmts |-> <<[s EXCEPT !.mut = RandomElement(MS)]>>]}
+                           : MS \in {Muts(Text(Expr(s), s.pf))}} : s \in RandStmt(c, TRUE)}
+Mutated(c, n) == UNION {MutOne(c) : i \in 1..n}
+\* every clearly invalid mutation of every accept expression (written directly in m1, without prefixes and with m1's own)
+MutAll(c) ==
+  UNION {UNION {UNION {{[cfg |-> c, stmts |-> <<[Stmt(k, "direct", <<"m1", "m1", "m1">>, e, pf) EXCEPT !.mut = m]>>]
+                        : m \in Muts(Text(AcceptPool(k)[e], pf))}
+                       : pf \in {[i \in 1..2 |-> IF i \in Slots(AcceptPool(k)[e]) THEN p ELSE ""] : p \in {"", Own(c, "m1")}}}
+                : e \in 1..NAccept(k)} : k \in Kinds}
+
+\* the truncations that end right after an opening quote, bracket or parenthesis, an operator character, a prefix colon or a
+\* slash (always generated, also in the quick tier)
+MutBoundary(c) == {I \in MutAll(c) : LET s == I.stmts[1]  t == SText(s) IN
+                                      s.mut.op = "trunc" /\ SubSeq(t, Len(t), Len(t)) \in {"'", "(", "[", "=", ">", "<", "!", ":", "/", "+", ","}}
+
 \* ---- several statements on one node.  A host statement (must, when or path; written directly, in a grouping used
 \* locally / from another unit, or under augment) and two or three further statements on the SAME node: musts (and, if
 \* the host is not a when, possibly the node's when) written next to it, or musts added by refine (host in a grouping)
@@ -215,7 +266,7 @@ Modes(c, h) == {"same"} \cup (IF h.place \in {"grp-local", "grp-cross"} THEN {"r
                \cup (IF h.place = "direct" /\ DevUnits(c, h) # {} THEN {"deviate-on"} ELSE {})
 \* one random further statement (singleton set) of the kind on the node of host h (statement number j), expression not in `used`
 ExtraOne(c, h, j, kind, mode, good, used) ==
-  UNION {UNION {UNION {{[kind |-> kind, place |-> mode, T |-> t, U |-> h.U, V |-> h.V, e |-> e, pf |-> pf, on |-> j, hp |-> h.place]
+  UNION {UNION {UNION {{[kind |-> kind, place |-> mode, T |-> t, U |-> h.U, V |-> h.V, e |-> e, pf |-> pf, on |-> j, hp |-> h.place, mut |-> NoMut]
                         : pf \in {RandomElement(IF good THEN PfGood(c, t, ExprAt(kind, e)) ELSE PfChoices(c, t, ExprAt(kind, e)))}}
                        : e \in {IF good \/ RandomElement(1..2) = 1 THEN RandomElement((1..NAccept(kind)) \ used)
                                 ELSE NAccept(kind) + RandomElement(1..Len(RejectPool(kind)))}}
